@@ -174,21 +174,21 @@ deriving Repr, DecidableEq
 
 open Elys.Gen.MintBurn in
 def expectedSites : List (Site × SiteCls) := [
-  ({ pkg := "app", file := "test_setup.go", fn := "initAccountWithCoins", callee := "MintCoins", recv := "github.com/cosmos/cosmos-sdk/x/bank/keeper.Keeper", modArg := "minttypes.ModuleName", coins := "coins" }, .testHelper),
-  ({ pkg := "x/amm/keeper", file := "pool.go", fn := "Keeper.MatchAmmBalances", callee := "MintCoins", recv := "x/amm/types.BankKeeper", modArg := "types.ModuleName", coins := "sdk.NewCoins(sdk.NewCoin(asset.Token.Denom, asset.Token.Amount.Sub(balance.Amount)))" }, .migrationOnly),
-  ({ pkg := "x/amm/keeper", file := "pool.go", fn := "Keeper.MatchAmmBalances", callee := "BurnCoins", recv := "x/amm/types.BankKeeper", modArg := "types.ModuleName", coins := "sdk.NewCoins(sdk.NewCoin(asset.Token.Denom, balance.Amount.Sub(asset.Token.Amount)))" }, .migrationOnly),
-  ({ pkg := "x/amm/keeper", file := "pool_share.go", fn := "Keeper.MintPoolShareToAccount", callee := "MintCoins", recv := "x/amm/types.BankKeeper", modArg := "types.ModuleName", coins := "amt" }, .shareMint),
-  ({ pkg := "x/amm/keeper", file := "pool_share.go", fn := "Keeper.BurnPoolShareFromAccount", callee := "BurnCoins", recv := "x/amm/types.BankKeeper", modArg := "types.ModuleName", coins := "coins" }, .shareBurn),
-  ({ pkg := "x/burner/keeper", file := "burn.go", fn := "Keeper.burnCoins", callee := "BurnCoins", recv := "x/burner/types.BankKeeper", modArg := "types.ModuleName", coins := "coins" }, .burner),
-  ({ pkg := "x/commitment/keeper", file := "keeper.go", fn := "Keeper.MintCoins", callee := "MintCoins", recv := "x/commitment/types.BankKeeper", modArg := "moduleName", coins := "amt" }, .commitmentWrapper),
-  ({ pkg := "x/commitment/keeper", file := "keeper.go", fn := "Keeper.BurnCoins", callee := "BurnCoins", recv := "x/commitment/types.BankKeeper", modArg := "moduleName", coins := "amt" }, .commitmentWrapper),
-  ({ pkg := "x/commitment/keeper", file := "msg_server_claim_vesting.go", fn := "Keeper.ClaimVesting", callee := "MintCoins", recv := "x/commitment/types.BankKeeper", modArg := "types.ModuleName", coins := "elysCoins" }, .vestingRelease),
-  ({ pkg := "x/commitment/keeper", file := "msg_server_vest_now.go", fn := "msgServer.VestNow", callee := "MintCoins", recv := "x/commitment/types.BankKeeper", modArg := "types.ModuleName", coins := "withdrawCoins" }, .vestingRelease),
-  ({ pkg := "x/estaking/keeper", file := "abci.go", fn := "Keeper.UpdateStakersRewards", callee := "MintCoins", recv := "x/estaking/types.CommitmentKeeper", modArg := "ccvconsumertypes.ConsumerToSendToProviderName", coins := "sdk.NewCoins(sdk.NewCoin(ptypes.Eden, providerEdenAmount))" }, .virtualMint),
-  ({ pkg := "x/estaking/keeper", file := "abci.go", fn := "Keeper.UpdateStakersRewards", callee := "MintCoins", recv := "x/estaking/types.CommitmentKeeper", modArg := "ccvconsumertypes.ConsumerRedistributeName", coins := "consumerCoins.Sort()" }, .virtualMint),
-  ({ pkg := "x/masterchef/keeper", file := "abci.go", fn := "Keeper.UpdateLPRewards", callee := "MintCoins", recv := "x/masterchef/types.CommitmentKeeper", modArg := "types.ModuleName", coins := "sdk.Coins{sdk.NewCoin(ptypes.Eden, newEdenAllocatedForPool.TruncateInt())}" }, .virtualMint),
-  ({ pkg := "x/stablestake/keeper", file := "msg_server_bond.go", fn := "msgServer.Bond", callee := "MintCoins", recv := "x/stablestake/types.BankKeeper", modArg := "types.ModuleName", coins := "shareCoins" }, .shareMint),
-  ({ pkg := "x/stablestake/keeper", file := "msg_server_unbond.go", fn := "msgServer.Unbond", callee := "BurnCoins", recv := "x/stablestake/types.BankKeeper", modArg := "types.ModuleName", coins := "shareCoins" }, .shareBurn)
+  ({ pkg := "app", file := "test_setup.go", fn := "initAccountWithCoins", callee := "MintCoins", recv := "github.com/cosmos/cosmos-sdk/x/bank/keeper.Keeper", modArg := "minttypes.ModuleName", coins := "coins", guards := "" }, .testHelper),
+  ({ pkg := "x/amm/keeper", file := "pool.go", fn := "Keeper.MatchAmmBalances", callee := "MintCoins", recv := "x/amm/types.BankKeeper", modArg := "types.ModuleName", coins := "sdk.NewCoins(sdk.NewCoin(asset.Token.Denom, asset.Token.Amount.Sub(balance.Amount)))", guards := "!pool.PoolParams.UseOracle && asset.Token.Denom == balance.Denom && asset.Token.Amount.GT(balance.Amount)" }, .migrationOnly),
+  ({ pkg := "x/amm/keeper", file := "pool.go", fn := "Keeper.MatchAmmBalances", callee := "BurnCoins", recv := "x/amm/types.BankKeeper", modArg := "types.ModuleName", coins := "sdk.NewCoins(sdk.NewCoin(asset.Token.Denom, balance.Amount.Sub(asset.Token.Amount)))", guards := "!pool.PoolParams.UseOracle && asset.Token.Denom == balance.Denom && asset.Token.Amount.LT(balance.Amount)" }, .migrationOnly),
+  ({ pkg := "x/amm/keeper", file := "pool_share.go", fn := "Keeper.MintPoolShareToAccount", callee := "MintCoins", recv := "x/amm/types.BankKeeper", modArg := "types.ModuleName", coins := "amt", guards := "" }, .shareMint),
+  ({ pkg := "x/amm/keeper", file := "pool_share.go", fn := "Keeper.BurnPoolShareFromAccount", callee := "BurnCoins", recv := "x/amm/types.BankKeeper", modArg := "types.ModuleName", coins := "coins", guards := "" }, .shareBurn),
+  ({ pkg := "x/burner/keeper", file := "burn.go", fn := "Keeper.burnCoins", callee := "BurnCoins", recv := "x/burner/types.BankKeeper", modArg := "types.ModuleName", coins := "coins", guards := "" }, .burner),
+  ({ pkg := "x/commitment/keeper", file := "keeper.go", fn := "Keeper.MintCoins", callee := "MintCoins", recv := "x/commitment/types.BankKeeper", modArg := "moduleName", coins := "amt", guards := "" }, .commitmentWrapper),
+  ({ pkg := "x/commitment/keeper", file := "keeper.go", fn := "Keeper.BurnCoins", callee := "BurnCoins", recv := "x/commitment/types.BankKeeper", modArg := "moduleName", coins := "amt", guards := "" }, .commitmentWrapper),
+  ({ pkg := "x/commitment/keeper", file := "msg_server_claim_vesting.go", fn := "Keeper.ClaimVesting", callee := "MintCoins", recv := "x/commitment/types.BankKeeper", modArg := "types.ModuleName", coins := "elysCoins", guards := "newClaims.IsAllPositive() && newClaims.AmountOf(ptypes.Elys).IsPositive()" }, .vestingRelease),
+  ({ pkg := "x/commitment/keeper", file := "msg_server_vest_now.go", fn := "msgServer.VestNow", callee := "MintCoins", recv := "x/commitment/types.BankKeeper", modArg := "types.ModuleName", coins := "withdrawCoins", guards := "vestingInfo.VestingDenom == ptypes.Elys" }, .vestingRelease),
+  ({ pkg := "x/estaking/keeper", file := "abci.go", fn := "Keeper.UpdateStakersRewards", callee := "MintCoins", recv := "x/estaking/types.CommitmentKeeper", modArg := "ccvconsumertypes.ConsumerToSendToProviderName", coins := "sdk.NewCoins(sdk.NewCoin(ptypes.Eden, providerEdenAmount))", guards := "" }, .virtualMint),
+  ({ pkg := "x/estaking/keeper", file := "abci.go", fn := "Keeper.UpdateStakersRewards", callee := "MintCoins", recv := "x/estaking/types.CommitmentKeeper", modArg := "ccvconsumertypes.ConsumerRedistributeName", coins := "consumerCoins.Sort()", guards := "" }, .virtualMint),
+  ({ pkg := "x/masterchef/keeper", file := "abci.go", fn := "Keeper.UpdateLPRewards", callee := "MintCoins", recv := "x/masterchef/types.CommitmentKeeper", modArg := "types.ModuleName", coins := "sdk.Coins{sdk.NewCoin(ptypes.Eden, newEdenAllocatedForPool.TruncateInt())}", guards := "pool.EnableEdenRewards && !edenPriceIsZero && newEdenAllocatedForPool.TruncateInt().IsPositive()" }, .virtualMint),
+  ({ pkg := "x/stablestake/keeper", file := "msg_server_bond.go", fn := "msgServer.Bond", callee := "MintCoins", recv := "x/stablestake/types.BankKeeper", modArg := "types.ModuleName", coins := "shareCoins", guards := "" }, .shareMint),
+  ({ pkg := "x/stablestake/keeper", file := "msg_server_unbond.go", fn := "msgServer.Unbond", callee := "BurnCoins", recv := "x/stablestake/types.BankKeeper", modArg := "types.ModuleName", coins := "shareCoins", guards := "" }, .shareBurn)
 ]
 
 /-- which classes of denom a site of the given kind can put into circulation through x/bank during block processing -/
